@@ -154,6 +154,7 @@ type epItem struct {
 	f        *file
 	events   uint32
 	data     int32
+	pad      int32 // second half of epoll_data (user data beyond the fd)
 	edge     bool // ET: a wake-up happened since the last report
 	disabled bool // ONESHOT fired
 }
@@ -202,6 +203,9 @@ type Kernel struct {
 	// OnSyscall, when set, observes every syscall on a simulated descriptor (oracles use it
 	// to detect descriptor access after Close returned).
 	OnSyscall func(name string, fd int)
+	// OnWrote, when set, observes the result of every stream write(2) (taken < 0: error), in
+	// the goroutine that made the call.
+	OnWrote func(fd, asked, taken int)
 }
 
 // K returns the kernel of the current run (created on first use).
@@ -983,7 +987,7 @@ func (f *file) level() uint32 {
 }
 
 // EpollCtl implements EPOLL_CTL_ADD(1) / DEL(2) / MOD(3).
-func (k *Kernel) EpollCtl(epfd, op, fd int, events uint32, data int32) error {
+func (k *Kernel) EpollCtl(epfd, op, fd int, events uint32, data int32, pad ...int32) error {
 	simrt.Yield()
 	ef := k.file(epfd, "epoll_ctl")
 	if ef == nil || ef.kind != kindEpoll {
@@ -1014,6 +1018,9 @@ func (k *Kernel) EpollCtl(epfd, op, fd int, events uint32, data int32) error {
 			}
 		}
 		it := &epItem{ep: ep, fd: fd, f: tf, events: events, data: data, edge: true}
+		if len(pad) > 0 {
+			it.pad = pad[0]
+		}
 		ep.items = append(ep.items, it)
 		switch tf.kind {
 		case kindSock:
@@ -1039,6 +1046,10 @@ func (k *Kernel) EpollCtl(epfd, op, fd int, events uint32, data int32) error {
 		}
 		cur.events = events
 		cur.data = data
+		cur.pad = 0
+		if len(pad) > 0 {
+			cur.pad = pad[0]
+		}
 		cur.disabled = false
 		cur.edge = true // the current level is reported at the next wait
 	default:
@@ -1119,6 +1130,7 @@ func (ep *Epoll) anyReady() bool {
 type Event struct {
 	Events uint32
 	Fd     int32
+	Pad    int32
 }
 
 // EpollWait blocks until events are available (msec<0), polls (msec==0).
@@ -1178,7 +1190,7 @@ func (k *Kernel) EpollWait(epfd int, max int, msec int) ([]Event, error) {
 	out := make([]Event, 0, len(ready))
 	for _, it := range ready {
 		ev := it.poll(true)
-		out = append(out, Event{Events: ev, Fd: it.data})
+		out = append(out, Event{Events: ev, Fd: it.data, Pad: it.pad})
 		if it.events&EPOLLET != 0 {
 			it.edge = false
 		}
@@ -1259,6 +1271,13 @@ func (k *Kernel) Write(fd int, b []byte) (int, error) {
 		}
 		n, e := s.send(b, true)
 		simrt.Ev("write", int64(fd), int64(n), int64(e))
+		if k.OnWrote != nil {
+			if e != 0 {
+				k.OnWrote(fd, len(b), -1)
+			} else {
+				k.OnWrote(fd, len(b), n)
+			}
+		}
 		if e != 0 {
 			return -1, e
 		}
